@@ -36,6 +36,7 @@ def run_shard(ctx):
     qmgen.drive_histories(ctx, OWN, qmgen.late_wake_history(), ctx.n(400, 6000), nontrivial, salt=15)
     qmgen.drive_histories(ctx, OWN, qmgen.own_write_announced_history(), ctx.n(600, 10000), nontrivial, salt=16)
     qmgen.drive_histories(ctx, OWN, qmgen.flush_blocked_spawn_history(), ctx.n(500, 8000), nontrivial, salt=17)
+    qmgen.drive_histories(ctx, OWN, qmgen.sched_hold_history(), ctx.n(600, 10000), nontrivial, salt=19)
 
 
 def replay(case):
